@@ -248,6 +248,12 @@ def step (x : Sess) (toks : List String) : Step :=
     match h.toNat? with
     | some id => allocAnswer x id (allocT c x.st 8 8 fuel) .slot (toks.head! == "alloc_d_owned") 2 8
     | none => { sess := some x, out := "bad-op" }
+  | ["alloc_z", h] | ["alloc_z_owned", h] =>
+    -- a zero-sized `needs_drop` value: the handle is the null one (`Kind::Dangling`); the harness's `write` consumes and
+    -- drops the value at once (one drop, counted here), the drop of the handle drops nothing
+    match h.toNat? with
+    | some id => allocAnswer { x with dropCount := x.dropCount + 1 } id (.ok (.ok none, x.st)) .obj (toks.head! == "alloc_z_owned") 2 1
+    | none => { sess := some x, out := "bad-op" }
   | ["fill", h, b] =>
     match h.toNat?, b.toNat? with
     | some id, some b =>
@@ -290,6 +296,24 @@ def step (x : Sess) (toks : List String) : Step :=
       let um := if x.arenas.isEmpty then 0 else 1
       let x := { x with fs := fs, handles := [], arenas := [], closed := true, fpre := if x.removeOnDrop then #[] else x.fpre }
       { sess := some x, out := s!"r=ok um={um} {fileStr x.whole}" }
+  | ["close_last", h] =>
+    -- every other handle detached, every arena value dropped, then the owned handle `h` dropped as the last owner
+    if !x.opts.file then { sess := some x, out := "bad-op" }
+    else match h.toNat? with
+      | none => { sess := some x, out := "bad-op" }
+      | some id =>
+        match x.find id with
+        | some hd =>
+          if !hd.holdsArena then { sess := some x, out := "r=nohandle" }
+          else
+            let x1 := { x with handles := x.handles.filter (·.1 == id), arenas := [], refs := 1 }
+            match x1.dropHandle id false with
+            | .error f => failed f
+            | .ok x2 =>
+              let fs := if x2.removeOnDrop then none else x2.file
+              let x3 := { x2 with fs := fs, handles := [], arenas := [], closed := true, fpre := if x2.removeOnDrop then #[] else x2.fpre }
+              { sess := some x3, out := s!"r=ok um={x3.released - x.released} {fileStr x3.whole}" }
+        | none => { sess := some x, out := "r=nohandle" }
   | ["flush"] => simple x "r=ok"
   | ["filehash"] => { sess := some x, out := s!"r=ok {fileStr x.whole}" }
   | ["crashcheck"] =>
